@@ -281,6 +281,11 @@ class EMBV(MateValueFamily):
 # ======================================================================================================
 class KinFamily(Family):
     """Criteria on a kinship factor C (K = C'C)."""
+    def valid(self, fx, opt):
+        d = self.data(fx, opt)
+        Ks = d["Ks"] if "Ks" in d else [d["K"]]
+        return all(R.is_clearly_pd(K) for K in Ks)
+
     def space(self, fx, opt):
         return fx.n
 
@@ -296,8 +301,7 @@ class KinFamily(Family):
     def expected_kin(self, fx, which):
         if which == "molecular":
             K = R.kin_molecular(fx.counts)
-            assert R.is_clearly_pd(K)
-            return K, "chol"
+            return (K, "chol") if R.is_clearly_pd(K) else (None, "molecular-kinship-not-positive-definite")
         return R.kin_vanraden(fx.counts), "chol-jitter"
 
 
@@ -324,6 +328,8 @@ class OCS(KinFamily):
     def build_factory(self, cls, enc, fx, fac, opt, common):
         which = opt["cmat"].split("-")[0]
         K, how = self.expected_kin(fx, which)
+        if K is None:
+            return None, how, None
         bv = R.unscaled(fx.bv, fx.loc, fx.scale) if opt["unscale"] else fx.bv
         numpy.random.seed(20240 + fx.n)       # only the jitter path draws (uniform jitter on a singular matrix)
         prob = cls.from_bvmat_gmat(bvmat=fx.bvmat(), gmat=fx.pgmat() if opt["phased"] else fx.gmat(),
@@ -353,6 +359,8 @@ class MGR(KinFamily):
     def build_factory(self, cls, enc, fx, fac, opt, common):
         which = opt["cmat"].split("-")[0]
         K, how = self.expected_kin(fx, which)
+        if K is None:
+            return None, how, None
         numpy.random.seed(20240 + fx.n)
         prob = cls.from_gmat(gmat=fx.pgmat() if opt["phased"] else fx.gmat(), cmatfcty=_cmatfcty(which), **common)
         return prob, [Exp("C", K, how)], ({"K": K, "N": fx.n} if how == "chol" else None)
